@@ -146,12 +146,26 @@ def _run_batch(cmds, cwd, hashseed):
     return json.loads(p.stdout)
 
 
+def _unrelated_git_repo(d):
+    """the second process runs inside a sub-directory of an unrelated git repository with one tagged commit"""
+    import subprocess
+    os.makedirs(os.path.join(d, 'sub dir'))
+    env = dict(os.environ, GIT_CONFIG_NOSYSTEM='1', HOME=d, GIT_AUTHOR_DATE='2001-01-01T00:00:00', GIT_COMMITTER_DATE='2001-01-01T00:00:00')
+    for cmd in (['git', 'init', '-q'], ['git', '-c', 'user.name=x', '-c', 'user.email=x@x', 'commit', '-q', '--allow-empty', '-m', 'unrelated'],
+                ['git', 'tag', 'v99.9']):
+        try:
+            subprocess.run(cmd, cwd=d, env=env, stdout=subprocess.DEVNULL, stderr=subprocess.DEVNULL, timeout=60)
+        except OSError:
+            return          # no git on this machine: the directory is just a directory
+
+
 def run_xproc(case):
     cmds = case['cmds']
     scratch = tempfile.mkdtemp(prefix="c07_")
     try:
+        _unrelated_git_repo(scratch)
         r1 = _run_batch(cmds, os.environ.get('VERIF_REPO', '/repo'), case['h1'])
-        r2 = _run_batch(cmds, scratch, case['h2'])
+        r2 = _run_batch(cmds, os.path.join(scratch, 'sub dir'), case['h2'])
     finally:
         shutil.rmtree(scratch, ignore_errors=True)
     ok = 0
@@ -159,7 +173,7 @@ def run_xproc(case):
         if a != b:
             da, db = a[1].splitlines(), b[1].splitlines()
             diff = next(((i, x, y) for i, (x, y) in enumerate(zip(da, db)) if x != y), (a[0], b[0], len(da), len(db)))
-            raise Violation("{} {}: two fresh processes (PYTHONHASHSEED {} in the checkout / {} in an empty directory) print different output; first difference: {}".format(
+            raise Violation("{} {}: two fresh processes (PYTHONHASHSEED {} in the checkout / {} in a directory of an unrelated git repository) print different output; first difference: {}".format(
                 c['tool'], ' '.join(c['args']), case['h1'], case['h2'], diff))
         m = ADDR.search(a[1])
         if m:
@@ -311,7 +325,7 @@ SUBCHECKS = [
              required_labels=['seed=0', 'random-graph-arg', 'random-family', 'random-transformation', 'two-random-sources',
                               'pbgen', 'cnfshuffle', 'cnfgen', 'deterministic-family', 'graph-in-T']),
     SubCheck('xproc', run_xproc, strategy=strat_xproc, quick=32, thorough=1600,
-             rule="batches of 1..30 of the same command lines, each batch executed in two fresh processes with different PYTHONHASHSEED (0/1/4242 vs random/17/99999) and different working directories; oracle: identical exit status and stdout bytes (header included); non-trivial: exit 0",
+             rule="batches of 1..30 of the same command lines, each batch executed in two fresh processes with different PYTHONHASHSEED (0/1/4242 vs random/17/99999) and different working directories (the checkout vs a sub-directory, with a blank in its name, of an unrelated tagged git repository); oracle: identical exit status and stdout bytes (header included); non-trivial: exit 0",
              required_labels=['cross-process', 'cross-cwd']),
     SubCheck('history', run_history, strategy=strat_history, quick=500, thorough=20000,
              rule="in one process: a command line V, then a command line P that shares a graph construction / family size / formula with V but adds graph modifiers or other transformation options, then V again; oracle: both runs of V print the same (exit status, stdout, stderr) - the output is a function of the command line and seed only, not of what ran before; non-trivial: exit 0",
